@@ -1,0 +1,7 @@
+//go:build !verif
+
+package federation
+
+// verifEventApplied marks the point where a peer's event has passed duplicate suppression and is about to be applied.
+// It does nothing (and is inlined away) in normal builds.
+func verifEventApplied(local string, from string, ev *Event) {}
